@@ -30,6 +30,8 @@ def errStr : PyErr → String
   | .indexError => "IndexError" | .keyError => "KeyError" | .typeError => "TypeError"
   | .zeroDivisionError => "ZeroDivisionError" | .stopIteration => "StopIteration"
   | .notImplementedError => "NotImplementedError" | .fuel => "FUEL"
+  | .invalidForwardStep => "InvalidForwardStep" | .invalidReverseStep => "InvalidReverseStep"
+  | .invalidRevolverAction => "InvalidRevolverAction" | .invalidActionIndex => "InvalidActionIndex"
 
 def showEvs (r : M (List PyEv)) : String :=
   match r with
@@ -64,6 +66,7 @@ def answer (w : List String) : String :=
   | some "multistage" =>
     showEvs (multistage_iterator fuel 0 0 (some (i 1)) (i 2) (i 3) (((w.getD 5 "").splitOn ",").filter (· ≠ "") |>.map stOf)
       (w.getD 4 "maximum") false)
+  | some "mixed" => showEvs (mixed_iterator fuel 0 0 (some (i 1)) (i 2) (stOf (w.getD 3 "DISK")) false)
   | some "twoLevel" =>
     showEvs (twoLevel_iterator fuel 0 0 none (i 1) (i 2) (stOf (w.getD 3 "DISK")) (w.getD 4 "maximum") (i 5) (i 6))
   | _ => "bad-request"
